@@ -330,7 +330,11 @@ func (g *Gen) assignTarget(want htype) *Node {
 		}
 	}
 	if g.chance(10) && !g.strict {
-		return Id(g.pick(valNames)) // possibly an implicit global
+		// possibly an implicit global — but never an active loop counter / recursion depth parameter
+		name := g.pick(valNames)
+		if b := g.lookup(name); b == nil || (!b.protect && b.holds != hFunc && b.holds != hClass) {
+			return Id(name)
+		}
 	}
 	if b := g.pickBinding(hObj, false); b != nil {
 		if g.chance(70) {
